@@ -171,9 +171,10 @@ func callsTerm(cs []Call) string {
 // ---- structural predicates on (workload trace, crash point) --------------------------
 
 type region struct {
-	lastCons    *Call // last consensus-class snapshot durably finalized in the prefix
-	markerDone  bool  // its WriteConsensusSnapshot is in the prefix
-	laterSnap   bool  // another WriteSnapshot follows it in the prefix
+	lastCons    *Call  // last consensus-class snapshot durably finalized in the prefix
+	mintBatch   uint64 // highest mint batch durably finalized in the prefix
+	markerDone  bool   // its WriteConsensusSnapshot is in the prefix
+	laterSnap   bool   // another WriteSnapshot follows it in the prefix
 	f6          bool
 	f7          bool // some chain has StartNewRound(·,0) but not StartNewRound(·,1) in the prefix
 	consCount   int
@@ -192,6 +193,9 @@ func classify(full []Call, plen int) region {
 		switch c.Name {
 		case "WriteSnapshot":
 			r.snapCount++
+			if c.Mint > r.mintBatch {
+				r.mintBatch = c.Mint
+			}
 			if c.Cons {
 				r.consCount++
 				r.lastCons = c
@@ -352,10 +356,16 @@ func (h *Harness) judge(name string, spec Spec, full []Call, ids map[string]int,
 	switch h.Prop {
 	case "C21":
 		kind := "after-consensus-finalization"
+		if rg.lastCons != nil && rg.lastCons.Mint > 0 {
+			kind = "after-mint-finalization"
+		}
 		if rg.lastCons == nil {
 			kind = "before-any-consensus-snapshot"
 		} else if !rg.markerDone && !rg.laterSnap {
 			kind = "marker-pending,consensus-snapshot-last"
+			if rg.lastCons.Mint > 0 {
+				kind = "marker-pending,mint-snapshot-last"
+			}
 		} else if rg.f6 {
 			kind = "marker-pending,later-snapshot(F6-region)"
 		}
@@ -390,6 +400,9 @@ func (h *Harness) judge(name string, spec Spec, full []Call, ids map[string]int,
 			}
 			h.fail("restart-failed-after-consensus-finalization", where+": the node does not restart ("+restart+": "+detail+")", cs)
 			return
+		}
+		if rg.mintBatch > 0 && o.rec.LastMint < rg.mintBatch {
+			h.fail("mint-bookkeeping-lost", fmt.Sprintf("%s: mint batch %d was durably finalized, the restarted node's LastMint is %d", where, rg.mintBatch, o.rec.LastMint), cs)
 		}
 		if o.rec.Marker != rg.lastCons.Hash {
 			what := fmt.Sprintf("%s: consensus snapshot %s (id %d) was durably finalized, after restart ReadLastConsensusSnapshot = %s (id %d)",
